@@ -285,17 +285,18 @@ func c10Run(c fw.Case) fw.Verdict {
 		}
 		ok, missing = held()
 	}
+	fs.mu.Lock()
 	v.Count("fetches_released_by_gate", int64(len(fs.Order)))
 	v.Count("fetches_reordered", int64(fs.Reorder))
+	fs.mu.Unlock()
 	v.Count("valid_entries_expected", int64(len(want)))
 	cell := fw.HashSig(nv, bad, place, pos, c.Bool("prefix"), typ, c.Int("nbad", 1))
 	fs.mu.Lock()
 	ord := strings.Join(fs.Order, ">")
-	reord := fs.Reorder
+	nrel := len(fs.Order)
 	fs.mu.Unlock()
 	v.Sig = cell + fw.HashSig(ord)
-	_ = reord
-	v.NonTrivial = deliveredBad && re && len(fs.Order) >= 2
+	v.NonTrivial = deliveredBad && re && nrel >= 2
 	if !ok {
 		// negative verdict: confirm rest
 		if !e.W.WaitIdle(sim.IdleOpts{Stable: confirmWindow(), Watchdog: 60 * time.Second}) {
